@@ -65,7 +65,7 @@ type fnReport struct {
 
 func (c *Ctx) verifyFunc(fn *ssa.Function, fc *FuncContract) (rep *fnReport) {
 	rep = &fnReport{Key: c.fnKey(fn)}
-	g := &FnGen{c: c, fn: fn, fc: fc, declOf: map[string]string{}, vals: map[ssa.Value]*Val{}, usedDropped: map[string]bool{}, usedExtern: map[string]bool{}, closures: map[*ssa.MakeClosure][]capturedVar{}}
+	g := &FnGen{c: c, fn: fn, fc: fc, declOf: map[string]string{}, vals: map[ssa.Value]*Val{}, usedDropped: map[string]bool{}, usedExtern: map[string]bool{}, closures: map[*ssa.MakeClosure][]capturedVar{}, boundCallees: map[string]bool{}}
 	c.curFile = c.ctrFile[fc]
 	defer func() {
 		c.curFile = nil
@@ -75,7 +75,9 @@ func (c *Ctx) verifyFunc(fn *ssa.Function, fc *FuncContract) (rep *fnReport) {
 				rep.Obls = nil
 				return
 			}
-			panic(r)
+			// an internal error of the generator must not crash the check: the function is undecided
+			rep.GenErr = fmt.Sprintf("internal generator error: %v", r)
+			rep.Obls = nil
 		}
 	}()
 	g.run()
@@ -102,6 +104,12 @@ func (c *Ctx) verifyFunc(fn *ssa.Function, fc *FuncContract) (rep *fnReport) {
 					}
 				}
 			}
+		}
+	}
+	for k := range g.boundCallees {
+		if cc := c.contracts[k]; cc != nil && !cc.Extern && !seen[k] {
+			seen[k] = true
+			rep.Callees = append(rep.Callees, k)
 		}
 	}
 	return rep
